@@ -187,7 +187,7 @@ func Check() *common.Check {
 		MemLimit:  8 << 30, // the token-limit boundary inputs are trees of a million tokens
 		Rule: fmt.Sprintf("inputs with at least one non-semicolon token: the sqlgen clause/DML/DDL/hole/nesting statements (valid), every single-token deletion, duplication and replacement by 7 hostile tokens of the first 250 (quick) / 1500 (thorough) distinct statements, "+
 			"all scripts of <=3 items over 3 valid + 2 invalid statements and the empty item (stray semicolons), 14 lexically invalid inputs; each through %d entry points compared with gosqlx.Parse (accept/reject, canonical tree, structured error code); "+
-			"all batches of length <=3 over 4 valid + 3 invalid inputs, and every generated statement (once and twice) followed by the deepest nesting a new parser accepts, through ParseMultiple / ValidateMultiple; every entry point on 6 inputs that yield no tree (once, twice) followed by one ParseMultiple batch of three statements whose containers must be distinct and equal to the individual trees. distinct = distinct input text; non-trivial = every executed case (each runs all entry points)", len(eps)),
+			"all batches of length <=3 over 4 valid + 3 invalid inputs + 4 near-duplicates (texts differing only in white space that are different statements), and every generated statement (once and twice) followed by the deepest nesting a new parser accepts, through ParseMultiple / ValidateMultiple; every entry point on 6 inputs that yield no tree (once, twice) followed by one ParseMultiple batch of three statements whose containers must be distinct and equal to the individual trees. distinct = distinct input text; non-trivial = every executed case (each runs all entry points)", len(eps)),
 		Assume: []string{"ParseWithRecovery is compared through its first error", "failure index of a batch is read from the 'query <i>' prefix of the batch error"},
 		Enumerate: func(e *common.Enum) {
 			seen := map[string]bool{}
@@ -315,7 +315,10 @@ func Check() *common.Check {
 			}
 			// batches
 			pool := []string{"SELECT c1 FROM t1", "SELECT c1 FROM t1 WHERE c2 IN (1, 2)", "INSERT INTO t1 (c1) VALUES (ARRAY[1, 2])", "SELECT (c1, c2) FROM t1",
-				"SELECT FROM", "SELECT 'abc", "UPDATE t1 SET"}
+				"SELECT FROM", "SELECT 'abc", "UPDATE t1 SET",
+				// near-duplicates: texts that differ only in white space and are not the same statement (a line break that ends a
+				// comment against a blank that does not; two blanks inside a value against one)
+				"SELECT c1 FROM t1 WHERE -- live rows\n c1 > 1", "SELECT c1 FROM t1 WHERE -- live rows c1 > 1", "SELECT 'a  b' FROM t1", "SELECT 'a b' FROM t1"}
 			var brec func(list []int)
 			brec = func(list []int) {
 				if len(list) > 0 {
